@@ -103,6 +103,7 @@ type VC struct {
 	gen      int
 	assertSet map[string]bool
 	quantDepth int
+	quantVars  []string // names of the variables bound by the quantifiers being evaluated
 	notes    []string
 	softErr  *[]string // when set, errors are collected here instead of making the function UNDECIDED
 	iterField map[string]string
@@ -218,8 +219,18 @@ func (vc *VC) declareFun(name string, args []Sort, res Sort) {
 }
 
 func (vc *VC) assume(t string) {
-	if t == "true" || t == "" || vc.quantDepth > 0 {
-		return // side facts about terms with bound variables cannot be asserted at top level
+	if t == "true" || t == "" {
+		return
+	}
+	if vc.quantDepth > 0 {
+		// side facts about terms with bound variables cannot be asserted at top level; facts that mention none of the
+		// variables bound at this point (definitions of fresh constants made while a Go function used in the contract is
+		// inlined, well-typedness of ground terms) are ordinary top-level facts
+		for _, qv := range vc.quantVars {
+			if mentionsSym(t, qv) {
+				return
+			}
+		}
 	}
 	if vc.assertSet == nil {
 		vc.assertSet = map[string]bool{}
@@ -229,6 +240,23 @@ func (vc *VC) assume(t string) {
 	}
 	vc.assertSet[t] = true
 	vc.asserts = append(vc.asserts, t)
+}
+
+// mentionsSym: sym occurs in the SMT text t as a whole symbol
+func mentionsSym(t, sym string) bool {
+	for i := 0; ; {
+		j := strings.Index(t[i:], sym)
+		if j < 0 {
+			return false
+		}
+		j += i
+		before := j == 0 || strings.ContainsRune(" ()", rune(t[j-1]))
+		after := j+len(sym) == len(t) || strings.ContainsRune(" ()", rune(t[j+len(sym)]))
+		if before && after {
+			return true
+		}
+		i = j + 1
+	}
 }
 
 func (vc *VC) sortOf(t types.Type) Sort { return vc.S.sortOf(t) }
